@@ -27,10 +27,11 @@ const (
 	aRead
 	aFail
 	aNoop
+	aSetEmpty // a successful item that stores the empty value
 	nActions
 )
 
-var actionNames = []string{"set", "read", "fail", "noop"}
+var actionNames = []string{"set", "read", "fail", "noop", "set-empty"}
 
 type monitor struct {
 	inside  atomic.Int64
@@ -66,6 +67,12 @@ func executor(m *monitor) *kmipserver.BatchExecutor {
 		defer leave()
 		return nil, errors.New("scripted failure")
 	}))
+	ex.Route(kmip.OperationGetAttributeList, kmipserver.HandleFunc(func(ctx context.Context, req *payloads.GetAttributeListRequestPayload) (*payloads.GetAttributeListResponsePayload, error) {
+		enter()
+		defer leave()
+		kmipserver.SetIdPlaceholder(ctx, "")
+		return &payloads.GetAttributeListResponsePayload{UniqueIdentifier: "e"}, nil
+	}))
 	ex.Route(kmip.OperationRecover, kmipserver.HandleFunc(func(ctx context.Context, req *payloads.RecoverRequestPayload) (*payloads.RecoverResponsePayload, error) {
 		enter()
 		defer leave()
@@ -87,6 +94,9 @@ func program(r *core.Rand) []int {
 			p[i] = aFail
 		default:
 			p[i] = aNoop
+			if r.P(1, 2) {
+				p[i] = aSetEmpty
+			}
 		}
 	}
 	return p
@@ -103,6 +113,8 @@ func build(reqID string, prog []int) *kmip.RequestMessage {
 			bi.Operation, bi.RequestPayload = kmip.OperationDestroy, &payloads.DestroyRequestPayload{UniqueIdentifier: "r"}
 		case aFail:
 			bi.Operation, bi.RequestPayload = kmip.OperationArchive, &payloads.ArchiveRequestPayload{UniqueIdentifier: "f"}
+		case aSetEmpty:
+			bi.Operation, bi.RequestPayload = kmip.OperationGetAttributeList, &payloads.GetAttributeListRequestPayload{UniqueIdentifier: "e"}
 		default:
 			bi.Operation, bi.RequestPayload = kmip.OperationRecover, &payloads.RecoverRequestPayload{UniqueIdentifier: "n"}
 		}
@@ -122,7 +134,7 @@ func progString(p []int) string {
 // judge replays the sequential register model over the items of one request.
 func judge(c *core.Ctx, reqID string, prog []int, resp *kmip.ResponseMessage, via string) {
 	c.Count("requests", 1)
-	c.Count("requests."+via, 1)
+	c.Count("requests."+strings.SplitN(via, ",", 2)[0], 1)
 	if resp == nil || len(resp.BatchItem) != len(prog) {
 		c.Inconclusive(fmt.Sprintf("request %s: response has the wrong shape", reqID))
 		return
@@ -134,6 +146,12 @@ func judge(c *core.Ctx, reqID string, prog []int, resp *kmip.ResponseMessage, vi
 		switch a {
 		case aSet:
 			cur = fmt.Sprintf("%s:%d", reqID, i)
+			afterFail = false
+		case aSetEmpty:
+			if cur != "" {
+				c.Count("empty_value_stored_over_a_value", 1)
+			}
+			cur = ""
 			afterFail = false
 		case aFail:
 			// the statement is silent on whether a failed item clears the value: both are accepted afterwards
@@ -191,12 +209,48 @@ func retryMiddleware(next kmipserver.Next, ctx context.Context, msg *kmip.Reques
 	return next(ctx, msg)
 }
 
+// splitMiddleware caps the batch size: a request whose client correlation value is "split:<n>" is passed on in
+// chunks of n items, each through its own invocation of the rest of the chain (same context), and the chunk
+// responses are merged. It is still ONE request: values stored in one chunk are what later chunks observe.
+func splitMiddleware(next kmipserver.Next, ctx context.Context, msg *kmip.RequestMessage) (*kmip.ResponseMessage, error) {
+	n := 0
+	if _, err := fmt.Sscanf(msg.Header.ClientCorrelationValue, "split:%d", &n); err != nil || n <= 0 {
+		return next(ctx, msg)
+	}
+	var merged *kmip.ResponseMessage
+	for from := 0; from < len(msg.BatchItem); from += n {
+		to := min(from+n, len(msg.BatchItem))
+		sub := *msg
+		sub.BatchItem = msg.BatchItem[from:to]
+		sub.Header.BatchCount = int32(to - from)
+		resp, err := next(ctx, &sub)
+		if err != nil || resp == nil {
+			return resp, err
+		}
+		if merged == nil {
+			cp := *resp
+			cp.BatchItem = append([]kmip.ResponseBatchItem{}, resp.BatchItem...)
+			merged = &cp
+		} else {
+			merged.BatchItem = append(merged.BatchItem, resp.BatchItem...)
+		}
+	}
+	if merged != nil {
+		merged.Header.BatchCount = int32(len(merged.BatchItem))
+	}
+	return merged, nil
+}
+
 func direct(c *core.Ctx, r *core.Rand, i int) {
 	m := &monitor{}
 	ex := executor(m)
 	withRetry := i%2 == 1
 	if withRetry {
 		ex.Use(retryMiddleware)
+	}
+	withSplit := (i/2)%2 == 1
+	if withSplit {
+		ex.Use(splitMiddleware)
 	}
 	N := 2 + r.Intn(63)
 	var wg sync.WaitGroup
@@ -216,6 +270,12 @@ func direct(c *core.Ctx, r *core.Rand, i int) {
 					req.BatchItem[0].UniqueBatchItemID = []byte("R")
 					c.Count("retried_requests", 1)
 				}
+				via := "direct"
+				if withSplit && !retried && len(prog) > 1 && rr.P(1, 2) {
+					req.Header.ClientCorrelationValue = fmt.Sprintf("split:%d", 1+rr.Intn(len(prog)-1))
+					c.Count("split_requests", 1)
+					via = "direct, batch split by a middleware (" + req.Header.ClientCorrelationValue + ")"
+				}
 				var resp *kmip.ResponseMessage
 				if p, pv, st := core.Guard(func() { resp = ex.HandleRequest(context.Background(), req) }); p {
 					c.Violation(core.PanicSig(pv, st), fmt.Sprintf("HandleRequest panicked: %v", pv), map[string]any{"stack": st})
@@ -224,8 +284,8 @@ func direct(c *core.Ctx, r *core.Rand, i int) {
 				if retried {
 					continue
 				}
-				judge(c, reqID, prog, resp, "direct")
-				c.Distinct(core.Hash64(progString(prog)))
+				judge(c, reqID, prog, resp, via)
+				c.Distinct(core.Hash64(progString(prog), req.Header.ClientCorrelationValue))
 			}
 		}(g)
 	}
@@ -291,7 +351,7 @@ func Spec() *core.Spec {
 		Rule: "seeded programs of 1-8 batch items over {set (value = request id + item index), read, fail, noop}; 2-64 goroutines issuing requests through BatchExecutor.HandleRequest at once (handlers yield so that items of different requests interleave; in half of the rounds a retry middleware runs the chain twice for a quarter of the requests) and 1-16 real server connections each sending a sequence of 6 requests; " +
 			"every read is checked against a per-request sequential register model starting empty; any value carrying another request's id is a leak, identified exactly; race reports whose stacks are the placeholder accessors are violations. distinct = distinct programs",
 		Assumptions: []string{"after a failed item both the previous value and the empty value are accepted (the statement is silent on clearing)"},
-		Required:    []string{"requests.direct", "requests.wire", "reads", "handler_overlaps", "connections", "retried_requests"},
+		Required:    []string{"requests.direct", "requests.wire", "reads", "handler_overlaps", "connections", "retried_requests", "split_requests", "empty_value_stored_over_a_value"},
 		RaceVerdict: func(r core.RaceReport) (string, bool) {
 			for _, st := range r.Frames {
 				for _, f := range st {
